@@ -11,7 +11,7 @@ from __future__ import annotations
 import ast
 
 from .. import flow
-from ..core import AnalysisError, dotted, unparse, params, walk_no_nested, strip_docstring
+from ..core import AnalysisError, dotted, unparse, params, walk_no_nested, strip_docstring, calls_to
 
 IMOD = "irispie.sequentials._invariants"
 SMOD = "irispie.sequentials.main"
@@ -101,9 +101,69 @@ def rule_r3(chk, rid="C16-R3"):
     pf, pl = bm.func("_prefetch_first"), bm.func("_prefetch_last")
     ok = "sum_in_rows=im.sum(axis=1)" in squash(pf) and "_np.where(sum_in_rows==1)" in squash(pf) and "sum_in_columns=im.sum(axis=0)" in squash(pl) and "_np.where(sum_in_columns==1)" in squash(pl)
     chk.ob(rid, "incidences.blazer[_prefetch_first/_last criteria]", ok, "first: equations with exactly one unknown; last: quantities occurring in exactly one equation", bm.loc(pf))
+    # _split_ids keeps the ORDER of the matched positions: the k-th extracted equation is paired with the k-th extracted quantity
+    from .. import fin
+    sp = bm.func("_split_ids")
+    chk.saw(bm, "_split_ids")
+    try:
+        cases = [((10, 11, 12, 13), (2, 0)), ((10, 11, 12, 13), (1, 3)), ((7, 8, 9), ()), ((7, 8, 9), (2, 1, 0))]
+        bad = None
+        for ids, index in cases:
+            got = fin.run_function(sp, {params(sp)[0]: ids, params(sp)[1]: index})
+            want = (tuple(ids[i] for i in index), tuple(x for i, x in enumerate(ids) if i not in index))
+            if tuple(map(tuple, got)) != want:
+                bad = (ids, index, got, want)
+                break
+        chk.ob(rid, "incidences.blazer._split_ids[order of matched positions]", bad is None,
+               "extracted ids follow the order of the index list (which is paired with the other side's index list), the rest keeps its order"
+               if bad is None else f"_split_ids{bad[:2]} = {bad[2]} (want {bad[3]}): the pairing equation<->quantity of the prefetched 1x1 blocks is lost", bm.loc(sp))
+    except fin.NotFinite as ex:
+        chk.undecided(rid, "incidences.blazer._split_ids[order of matched positions]", str(ex), bm.loc(sp))
+    # both sides are split by index lists computed from the same matching
+    for g, (a_idx, b_idx) in ((pf, ("index_rows", "index_columns")), (pl, ("index_rows", "index_columns"))):
+        cs = calls_to(g, "_split_ids")
+        pairs = sorted((squash(c.args[0]), squash(c.args[1])) for c in cs if len(c.args) == 2)
+        chk.ob(rid, f"incidences.blazer.{g.name}[split by matched index lists]", pairs == [("eids", "index_rows"), ("qids", "index_columns")],
+               f"_split_ids calls: {pairs}", bm.loc(g))
     for g, order in ((pf, ("eids_first", "qids_first", "eids_rem", "qids_rem", "im")), (pl, ("eids_last", "qids_last", "eids_rem", "qids_rem", "im"))):
         ok = tuple(tuple_names(single_return(g)) or ()) == order
         chk.ob(rid, f"incidences.blazer.{g.name}[return order]", ok, f"returns {tuple_names(single_return(g))}", bm.loc(g))
+
+
+def rule_r4(chk):
+    from ..core import squash, single_return
+    chk.rule("C16-R4", "a failed strict sequentialization cannot be stored: on the failing path sequentialize_strictly either raises, or "
+             "returns an order built only from the prefetched first/last equations - never including the unresolved remainder - so "
+             "that reorder_equations (C16-R1) rejects it as not a permutation", floor=2)
+    bm = chk.repo.mod(BMOD)
+    f = bm.func("sequentialize_strictly")
+    chk.saw(bm, "sequentialize_strictly")
+    unp = [n for n in ast.walk(f) if isinstance(n, ast.Assign) and isinstance(n.targets[0], ast.Tuple) and isinstance(n.value, ast.Call) and dotted(n.value.func) == "prefetch"]
+    if len(unp) != 1:
+        chk.undecided("C16-R4", "incidences.blazer.sequentialize_strictly", "prefetch call not recognised", bm.loc(f))
+        return
+    names = [unparse(e) for e in unp[0].targets[0].elts]
+    want_pos = bm.func("prefetch")
+    ret_names = [unparse(e) for e in single_return(want_pos).elts]
+    # positional agreement with prefetch's return
+    role = dict(zip(names, ret_names))
+    rem = [n for n, r in role.items() if r in ("eids", "qids", "im")]
+    fails = [n for n in ast.walk(f) if isinstance(n, ast.If) and "fail" in unparse(n.test)]
+    raises = any(isinstance(x, ast.Raise) for n in fails for x in ast.walk(n))
+    fail_def = [n.value for n in ast.walk(f) if isinstance(n, ast.Assign) and unparse(n.targets[0]) == "fail"]
+    covers = bool(fail_def) and all(any(isinstance(x, ast.Name) and x.id == r for x in ast.walk(fail_def[-1])) for r in rem[:2])
+    chk.ob("C16-R4", "incidences.blazer.sequentialize_strictly[failure detected]", covers if fail_def else None,
+           f"`fail` covers a non-empty remainder ({rem})", bm.loc(f))
+    r = single_return(f)
+    used = {x.id for x in ast.walk(r) if isinstance(x, ast.Name)}
+    leaks = sorted(used & set(rem))
+    ok = True if raises else (not leaks)
+    chk.ob("C16-R4", "incidences.blazer.sequentialize_strictly[failing path]", ok,
+           "the failing branch raises" if raises else
+           (f"the failing branch does not raise (the exception object is created, not raised); the returned order {unparse(r)} omits the "
+            f"unresolved remainder, so it is not a permutation and reorder_equations rejects it" if not leaks else
+            f"the failing branch does not raise and the returned order {unparse(r)} includes the unresolved remainder {leaks}: a model with "
+            "simultaneity is silently reordered and reported sequential"), bm.loc(r))
 
 
 def run(chk):
@@ -160,6 +220,7 @@ def run(chk):
         chk.ob("C16-R2", "sequentials.main.Sequential.reorder_equations", ok and not early,
                "delegates to the invariant (which validates) before any own store", sm.loc(h))
     rule_r3(chk)
+    rule_r4(chk)
     # diagnostic: exceptions constructed but not raised
     bm = chk.repo.mod(BMOD)
     for q, fn in bm.functions():
